@@ -170,6 +170,49 @@ static void do_chacha(const ev::Cmd& c) {
     e.i("src", g_line).raw("key", jbytes(kb)).raw("nonce", jbytes(nb)).ints("ctr", {static_cast<long long>(ctr >> 16), static_cast<long long>(ctr & 0xFFFFu)})
         .raw("inp", jbytes(inp)).raw("out", jbytes(out)).raw("out2", jbytes(out2)).raw("inpl", jbytes(inpl)).emit();
 }
+// chunk-sized inputs: "chachal key= nonce= ctr= n= seed=".  The whole output is compared, block by block, with what short calls
+// at counter + i return (those are judged against RFC 8439 by the short cases); the first, second, middle and last two blocks
+// (the last one may be partial) are logged so that the reference recomputes them at counter + index.
+static void do_chachal(const ev::Cmd& c) {
+    const Bytes kb = unhex(c.s("key")), nb = unhex(c.s("nonce"));
+    const auto ctr = static_cast<std::uint32_t>(std::strtoull(c.s("ctr", "0").c_str(), nullptr, 10));
+    const size_t n = static_cast<size_t>(c.i("n", 4096));
+    const auto key = mk_key(kb);
+    const auto nonce = mk_nonce(nb);
+    std::uint64_t st = 0x9E3779B97F4A7C15ull ^ static_cast<std::uint64_t>(c.i("seed", 1));
+    Bytes inp(n);
+    for (auto& b : inp) { st ^= st << 13; st ^= st >> 7; st ^= st << 17; b = static_cast<std::uint8_t>((st * 0x2545F4914F6CDD1Dull) >> 56); }
+    Bytes out(7, 0xEE), out2(1, 0xEE);
+    crypto::ChaCha20::apply(key, nonce, inp, out, ctr);
+    crypto::ChaCha20::apply(key, nonce, out, out2, ctr);
+    Bytes inpl = inp;
+    crypto::ChaCha20::apply(key, nonce, inpl, inpl, ctr);
+    const size_t nblk = (n + 63) / 64;
+    long long firstdiff = -1;
+    if (out.size() == n) {
+        for (size_t i = 0; i < nblk && firstdiff < 0; ++i) {
+            const size_t off = i * 64, len = std::min<size_t>(64, n - off);
+            Bytes piece(inp.begin() + static_cast<long>(off), inp.begin() + static_cast<long>(off + len)), po;
+            crypto::ChaCha20::apply(key, nonce, piece, po, static_cast<std::uint32_t>(ctr + static_cast<std::uint32_t>(i)));
+            if (po.size() != len || !std::equal(po.begin(), po.end(), out.begin() + static_cast<long>(off))) firstdiff = static_cast<long long>(i);
+        }
+    }
+    std::vector<size_t> pick;
+    for (size_t i : {size_t{0}, size_t{1}, nblk / 2, nblk >= 2 ? nblk - 2 : size_t{0}, nblk >= 1 ? nblk - 1 : size_t{0}})
+        if (i < nblk && std::find(pick.begin(), pick.end(), i) == pick.end()) pick.push_back(i);
+    std::vector<std::string> blocks;
+    for (size_t i : pick) {
+        const size_t off = i * 64, len = std::min<size_t>(64, n - off);
+        Bytes bi(inp.begin() + static_cast<long>(off), inp.begin() + static_cast<long>(off + len));
+        Bytes bo;
+        if (out.size() >= off + len) bo.assign(out.begin() + static_cast<long>(off), out.begin() + static_cast<long>(off + len));
+        blocks.push_back("{\"i\":" + std::to_string(i) + ",\"inp\":" + jbytes(bi) + ",\"out\":" + jbytes(bo) + "}");
+    }
+    ev::Ev e("chachal");
+    e.i("src", g_line).raw("key", jbytes(kb)).raw("nonce", jbytes(nb)).ints("ctr", {static_cast<long long>(ctr >> 16), static_cast<long long>(ctr & 0xFFFFu)})
+        .i("n", static_cast<long long>(n)).i("outlen", static_cast<long long>(out.size())).i("inv", out2 == inp ? 1 : 0).i("inplsame", inpl == out ? 1 : 0)
+        .i("piecediff", firstdiff).raw("blocks", ev::jlist(blocks)).emit();
+}
 static void do_encwk(const ev::Cmd& c) {
     const Bytes kb = unhex(c.s("key")), cb = unhex(c.s("cid")), pt = unhex(c.s("pt"));
     const auto key = mk_key(kb);
@@ -348,6 +391,7 @@ int main(int argc, char** argv) {
         else if (c.op == "shasplit") do_shasplit(c);
         else if (c.op == "hmac") do_hmac(c);
         else if (c.op == "chacha") do_chacha(c);
+        else if (c.op == "chachal") do_chachal(c);
         else if (c.op == "encwk") do_encwk(c);
         else if (c.op == "decwk") do_decwk(c);
         else if (c.op == "signed") do_signed(c);
